@@ -13,6 +13,18 @@ def parseEdge : SExp → Edge
   | .atom "t" => .trailing
   | _ => .all
 
+/-- A scripted future / stream: steps `(ready v) (err e) (pending) (hang)`, a final
+    `(again)` makes a stream script cyclic (harness/src/ascript.rs). -/
+def parseScript (xs : List SExp) : List AStep × Bool :=
+  let step (e : SExp) : Option AStep :=
+    match e.head with
+    | "ready" => some (.ready (parseVal (e.args.getD 0 (.atom ""))))
+    | "err" => some (.err (e.args.getD 0 (.atom "")).int)
+    | "pending" => some .pending
+    | "hang" => some .hang
+    | _ => none
+  (xs.filterMap step, match xs.getLast? with | some l => l.head == "again" | none => false)
+
 /-- Flatten the nested description into (source, stages source-side first). -/
 partial def parseChain (e : SExp) : TSrc × List Stage :=
   let xs := e.args
@@ -27,6 +39,10 @@ partial def parseChain (e : SExp) : TSrc × List Stage :=
   | "timer" => (.timer (parseVal (arg 0)) (arg 1).nat, [])
   | "timerat" => (.timer (parseVal (arg 0)) (arg 1).nat, [])
   | "iterc" => (.iterc (arg 0).nat, [])
+  | "future" => (.future false (parseScript xs).1, [])
+  | "futureres" => (.future true (parseScript xs).1, [])
+  | "stream" => let (sc, cyc) := parseScript xs; (.stream false sc cyc, [])
+  | "streamres" => let (sc, cyc) := parseScript xs; (.stream true sc cyc, [])
   | "merge" | "zip" | "combine" | "withlatest" | "takeuntil" | "skipuntil" | "sample" | "buffer" =>
     -- first input: a chain; second input: a bare source
     let k : Kind2 := match e.head with
